@@ -129,7 +129,7 @@ fn special_text(rng: &mut Rng) -> (String, &'static str) {
             "(identifier) @id { node n attr (n) idx = (named-child-index @id), txt = (source-text @id), cnt = (named-child-count @id) }\n(argument_list (_) @arg) { node m attr (m) arg_idx = (named-child-index @arg), ty = (node-type @arg) }\n".into(),
             "syntax_functions_on_every_node",
         ),
-        7 => ("(module) @m { node n attr (n) Kind = 1, kind = 2, KIND = 3, kinD = 4, name = 5, Name = 6 node k edge n -> k attr (n -> k) Ab = 1, aB = 2, ab = 3 print @m }\n".into(), "attribute_names_differing_in_case"),
+        7 => ("(module) @m { node n attr (n) Kind = 1, kind = 2, KIND = 3, kinD = 4, name = 5, Name = 6, def = 7, defs = 8, def_kind = 9, a1 = 10, a10 = 11, a = 12 node k edge n -> k attr (n -> k) Ab = 1, aB = 2, ab = 3 print @m }\n".into(), "attribute_names_differing_in_case"),
         8 => (
             "(module) @m { node n attr (n) a = (node), b = (node), c = (node), d = (node) let x = (node) let y = (node) attr (n) f = y, e = x attr ((node)) g = (node), h = (node) print @m }\n".into(),
             "node_creating_values_in_one_statement",
